@@ -101,6 +101,9 @@ func itoa(v int64) string {
 type repClient struct{ st *RepStream }
 
 func (c *repClient) Send(a *proto.Append) error {
+	if c.st.sendClosed {
+		return status.Error(codes.Internal, "SendMsg called after CloseSend")
+	}
 	if c.st.ctx.Err() != nil {
 		if c.st.serverErr != nil {
 			return c.st.serverErr
@@ -141,7 +144,9 @@ func (c *repClient) Trailer() metadata.MD         { return nil }
 func (c *repClient) CloseSend() error {
 	if !c.st.sendClosed {
 		c.st.sendClosed = true
-		vsched.Close(c.st.toServer)
+		// half-close marker (the channel itself is never closed: a Send racing with CloseSend
+		// must fail with an error, not panic like a raw Go channel)
+		vsched.Send(c.st.toServer)(nil)
 	}
 	return nil
 }
@@ -154,10 +159,10 @@ type repServer struct{ st *RepStream }
 func (s *repServer) Recv() (*proto.Append, error) {
 	r := vsched.Select(false, vsched.RecvCase(s.st.toServer), vsched.RecvCase(s.st.ctx.Done()))
 	if r.I == 0 {
-		if !r.Ok {
+		a, _ := r.Val.(*proto.Append)
+		if !r.Ok || a == nil {
 			return nil, io.EOF
 		}
-		a := r.Val.(*proto.Append)
 		if s.st.net.OnAppend != nil {
 			s.st.net.OnAppend(s.st.follower, a)
 		}
